@@ -7,6 +7,9 @@ AS_H = 'src/tbb/arena_slot.h'
 TD_CPP = 'src/tbb/task_dispatcher.cpp'
 PF_H = 'include/oneapi/tbb/parallel_for.h'
 MB_H = 'src/tbb/mailbox.h'
+TDH = 'src/tbb/task_dispatcher.h'
+PR_H = 'include/oneapi/tbb/parallel_reduce.h'
+TG_H = 'include/oneapi/tbb/task_group.h'
 CM_H = 'src/tbb/concurrent_monitor.h'
 CQ_H = 'include/oneapi/tbb/concurrent_queue.h'
 
@@ -133,6 +136,43 @@ MUTANTS = [
     dict(name='c02-delegated-notify-before-release', prop='C02', clause='D4', edits=[
         ('src/tbb/arena.cpp', "        m_wait_ctx.release(); // must precede the wakeup\n        m_monitor.notify([this] (std::uintptr_t ctx) {\n            return ctx == std::uintptr_t(&m_delegate);\n        }); // do not relax, it needs a fence!",
          "        m_monitor.notify([this] (std::uintptr_t ctx) {\n            return ctx == std::uintptr_t(&m_delegate);\n        }); // do not relax, it needs a fence!\n        m_wait_ctx.release(); // must precede the wakeup")]),
+    # ---------------------------------------------------------------- C03
+    dict(name='c03-store-unconditional', prop='C03', clause='D1', edits=[
+        (TDH, "            if (ed.context->cancel_group_execution()) {\n                /* We are the first to signal cancellation, so store the exception that caused it. */\n                ed.context->my_exception.store(tbb_exception_ptr::allocate(), std::memory_order_release);\n            }",
+         "            ed.context->cancel_group_execution();\n            ed.context->my_exception.store(tbb_exception_ptr::allocate(), std::memory_order_release);")]),
+    dict(name='c03-store-relaxed', prop='C03', clause='D1', edits=[
+        (TDH, "ed.context->my_exception.store(tbb_exception_ptr::allocate(), std::memory_order_release);",
+         "ed.context->my_exception.store(tbb_exception_ptr::allocate(), std::memory_order_relaxed);")]),
+    dict(name='c03-handler-returns', prop='C03', clause='D1', edits=[
+        (TDH, "                ed.context->my_exception.store(tbb_exception_ptr::allocate(), std::memory_order_release);\n            }\n        }",
+         "                ed.context->my_exception.store(tbb_exception_ptr::allocate(), std::memory_order_release);\n            }\n            return nullptr;\n        }")]),
+    dict(name='c03-cancel-execute-swapped', prop='C03', clause='D1', edits=[
+        (TDH, "                    if (ed.context->is_group_execution_cancelled()) {\n                        t = t->cancel(ed);\n                    } else {\n                        t = t->execute(ed);\n                    }",
+         "                    if (!ed.context->is_group_execution_cancelled()) {\n                        t = t->cancel(ed);\n                    } else {\n                        t = t->execute(ed);\n                    }")]),
+    dict(name='c03-rethrow-before-wait', prop='C03', clause='D2', edits=[
+        (TD_CPP, "    // Waiting on special object tied to a waiting thread.\n    external_waiter waiter{ *tls->my_arena, wait_ctx };\n    t = local_td.local_wait_for_all(t, waiter);",
+         "    if (auto e0 = w_ctx.my_exception.load(std::memory_order_acquire)) e0->throw_self();\n    external_waiter waiter{ *tls->my_arena, wait_ctx };\n    t = local_td.local_wait_for_all(t, waiter);")]),
+    dict(name='c03-exception-load-relaxed', prop='C03', clause='D2', edits=[
+        (TD_CPP, "    auto exception = w_ctx.my_exception.load(std::memory_order_acquire);", "    auto exception = w_ctx.my_exception.load(std::memory_order_relaxed);")]),
+    dict(name='c03-join-when-cancelled', prop='C03', clause='D4', edits=[
+        (PR_H, "        if (has_right_zombie && !context->is_group_execution_cancelled())", "        (void)context; if (has_right_zombie)")]),
+    dict(name='c03-det-join-when-cancelled', prop='C03', clause='D4', edits=[
+        (PR_H, "        if (!context->is_group_execution_cancelled())\n            left_body.join(right_body);", "        (void)context;\n            left_body.join(right_body);")]),
+    dict(name='c03-tg-wait-on_exception', prop='C03', clause='D5', edits=[
+        (TG_H, "            d1::wait(m_wait_vertex.get_context(), context());\n        }).on_completion([&] {", "            d1::wait(m_wait_vertex.get_context(), context());\n        }).on_exception([&] {")]),
+    dict(name='c03-graph-no-reset-in-handler', prop='C03', clause='D5', edits=[
+        ('include/oneapi/tbb/detail/_flow_graph_impl.h', "        }).on_exception([this] {\n            my_context->reset();\n            caught_exception = true;", "        }).on_exception([this] {\n            caught_exception = false;")]),
+    dict(name='c03-start_reduce-cancel-leak', prop='C03', clause='D3', edits=[
+        (PR_H, "task* start_reduce<Range, Body, Partitioner>::cancel(execution_data& ed) {\n    finalize(ed);\n    return nullptr;",
+         "task* start_reduce<Range, Body, Partitioner>::cancel(execution_data& ed) {\n    node* parent = my_parent; this->~start_reduce(); fold_tree<tree_node_type>(parent, ed);\n    return nullptr;")]),
+    dict(name='c03-worker-run-not-noexcept', prop='C03', clause='D6', edits=[
+        ('src/tbb/private_server.cpp', "void private_worker::run() noexcept {", "void private_worker::run() {"),
+        ('src/tbb/private_server.cpp', "    void run() noexcept;", "    void run();")]),
+    dict(name='c03-delegate-skip-finalize', prop='C03', clause='D7', edits=[
+        ('src/tbb/arena.cpp', "            ed_ext.task_disp->allow_fifo_task(fifo_task_allowed);\n        });\n\n        finalize();\n        return nullptr;",
+         "            ed_ext.task_disp->allow_fifo_task(fifo_task_allowed);\n        });\n\n        if (fifo_task_allowed) finalize();\n        return nullptr;")]),
+    dict(name='c03-zombie-flag-missing', prop='C03', clause='D4', edits=[
+        (PR_H, "        parent_ptr->has_right_zombie = true;", "        ")]),
 ]
 
 BENIGN = [
@@ -149,4 +189,7 @@ BENIGN = [
     dict(name='c02-b-unlock-manual-lock', prop='C02', edits=[
         ('src/tbb/thread_request_serializer.cpp', "void thread_request_serializer::set_active_num_workers(int soft_limit) {\n    mutex_type::scoped_lock lock(my_mutex);",
          "void thread_request_serializer::set_active_num_workers(int soft_limit) {\n    mutex_type::scoped_lock lock;\n    lock.acquire(my_mutex);")]),
+    dict(name='c03-b-store-seqcst', prop='C03', edits=[
+        (TDH, "ed.context->my_exception.store(tbb_exception_ptr::allocate(), std::memory_order_release);",
+         "ed.context->my_exception.store(tbb_exception_ptr::allocate());")]),
 ]
